@@ -68,7 +68,7 @@ inductive JO where
   | int (n : Int)
   | flt                                   -- a number that is not written as an integer
   | str (s : List Byte)
-  | tim                                   -- an RFC 3339 time stamp
+  | tim (sec nsec : Int)                  -- an RFC 3339 time stamp denoting this instant (its text is not modelled)
   | arr (xs : List JO)
   | obj (kvs : List (String × JO))
   deriving Inhabited
@@ -138,10 +138,10 @@ def leafJO (inMap : Bool) : Val → Option JO
   | .num _ n => some (.int n)
   | .str s => some (.str s)
   | .bytes bs => if inMap then some (.arr (bs.map fun b => .int b.toNat)) else some (.str (String.ofList (base64 bs)).toUTF8.toList)
-  | .time s _ =>
+  | .time s ns =>
     let y := goYear s
-    if inMap ∧ y < 0 then some .tim                       -- rewritten to 1970-01-01
-    else if y < 0 ∨ y > 9999 then none else some .tim
+    if inMap ∧ y < 0 then some (.tim 0 0)                 -- rewritten to 1970-01-01T00:00:00Z
+    else if y < 0 ∨ y > 9999 then none else some (.tim s ns)
   | .msgs _ => none                                        -- containers are handled by the formats
   | .other _ => none
 
